@@ -127,6 +127,12 @@ func c09(c *q.Ctx) {
 		keep := func(g q.Cond) bool { return strings.Contains(g.Canon, "p1.") && !strings.Contains(g.Canon, "len(") }
 		c.Effect(up, q.Eff{Spec: "XModel.bucketCacheStore", Arg: 0, Glob: "p1.TxOutputsExt[].Bucket", Req: []q.Cond{notTransient}, Exact: true, Keep: keep, Why: "the committed value of every written key is the transaction's output", Rule: "K2"})
 	}
+	utxoReaderRules(c)
+}
+
+// utxoReaderRules: the replay UTXO reader (shared by C09 and C10).
+func utxoReaderRules(c *q.Ctx) {
+	const sb = "kernel/contract/sandbox::"
 	// replay UTXO reader: each declared input is consumed once, selection stops when the amount is covered
 	su := c.Fn(sb + "(*UTXOReader).SelectUtxo")
 	if su != nil {
